@@ -21,8 +21,6 @@ S       : per-statement exec under CPython vs real pytype's verdict (clause 1 / 
           disagreeing inputs, all table rows, random user statements and type-probe statements derived
           from them; failing inputs are shrunk (class bodies) with ddmin.
 """
-import multiprocessing
-import os
 import re
 import sys
 import time
@@ -150,6 +148,23 @@ class Group:
     idx = {ns[self.cname(i)]: i for i in range(len(self.classes))}
     self.mros = [[idx[k] for k in ns[self.cname(i)].__mro__ if k in idx] for i in range(len(self.classes))]
     return self
+
+  def defines(self, c, name):
+    return any(n == name for n, _ in self.classes[c]["members"])
+
+  def finds(self, c, name):
+    return any(self.defines(d, name) for d in self.mros[c])
+
+  def overrides(self, sub, sup, name):
+    """vm_utils._overrides on the generated data (only used to measure the input distribution)."""
+    if sup not in self.mros[sub]:
+      return False
+    for d in self.mros[sub]:
+      if d == sup:
+        return False
+      if self.defines(d, name):
+        return True
+    return False
 
   def driver_line(self):
     parts = []
@@ -365,6 +380,7 @@ def pack_user_modules(groups):
 
 def correspond(res, rng, tier):
   t0 = time.time()
+  _T["prove_s"] = round(t0 - _T.get("start", t0), 1)
   pyv, _ = B.pytype_view()
   cpv = B.cpython_view()
   drv = common.ensure_driver("drv_c14")
@@ -435,6 +451,16 @@ def correspond(res, rng, tier):
       shapes["mixed_builtin"] += 1
     if mpy == "ok:N":
       shapes["notimpl_returned"] += 1
+    mm = re.match(r"bin u(\d+) (\w+) u(\d+)$", dstmt)
+    if mm:
+      a, b2 = int(mm.group(1)), int(mm.group(3))
+      opd = [o for o in OPS if o[0] == mm.group(2)][0]
+      if g.overrides(b2, a, opd[3]):
+        shapes["override_reversed"] += 1
+      if g.finds(b2, opd[3]) and (g.overrides(b2, a, opd[3]) or not g.finds(a, opd[2])):
+        shapes["reflected_used"] += 1
+      if a == b2:
+        shapes["same_class_operands"] = shapes.get("same_class_operands", 0) + 1
     bad = None
     if errs != exp:
       bad = "errors"
@@ -475,7 +501,8 @@ def correspond(res, rng, tier):
       "builtin_statements": len(bcases), "builtin_with_pytype_error": n_err, "builtin_rows_by_kind": kinds_hit,
       "user_statements": n_user, "user_groups": len(groups), "user_model_error_kinds": err_kinds,
       "user_shapes": shapes, "modules": len(bmods) + len(umods), "pytype_wall_s": round(t_py, 1),
-      "table_rows": len(pyv),
+      "table_rows": len(pyv), "timing": dict((k, v) for k, v in _T.items() if k != "start"),
+      "correspond_wall_s": round(time.time() - t0, 1),
   }
   res.add_samples([{"builtin": [s for _, s in bcases[:6]]},
                    {"user_group": groups[-1][0].source(), "statements": [s[1] for s in groups[-1][1][:8]],
@@ -660,8 +687,14 @@ def shrink_user(f):
   return f
 
 
+_T = {}
+
+
 def main():
+  t0 = time.time()
   B.main(verbose=False)   # prepare: regenerate Slots.lean / BuiltinOps.lean (rewritten only on change)
+  _T["prepare_s"] = round(time.time() - t0, 1)
+  _T["start"] = time.time()
   return common.run_check(
       "C14", REQUIRED, correspond, witnesses, search,
       trusted=["hand-written model of _call_binop_on_bindings/_overrides/get_attribute/call_function and of CPython's "
